@@ -296,6 +296,8 @@ def symbolic_hyperparams(ex, P, cls: ClassInfo, overrides=None):
             continue
         if d is None:
             continue  # required argument without override
+        if isinstance(d, ast.UnaryOp) and isinstance(d.op, ast.USub) and isinstance(d.operand, ast.Constant) and isinstance(d.operand.value, (int, float)):
+            d = ast.Constant(value=-d.operand.value)
         if isinstance(d, ast.Constant):
             c = d.value
             if c is None:
